@@ -157,9 +157,15 @@ class Fns(object):
         i = layer["_i"]
         seen = self.sightings.setdefault(i, {})
 
+        ncall = [0]
+
         def fn(descriptors):
+            ncall[0] += 1
             env.rec("ufn", "poll", i, len(descriptors))
             self._nest(layer, "poll")
+            if ncall[0] in layer.get("raise_at", ()):
+                env.rec("ufn", "poll-raise", i, ncall[0])
+                raise env.exc(("pollfn", i, ncall[0]))
             for d in descriptors:
                 v = d.result
                 k = repr(desc(v))
@@ -232,6 +238,8 @@ class Fns(object):
         class P(RetryPolicy):
             def should_retry(self, attempt, future):
                 env.rec("ufn", "should_retry", i, attempt, who(future), None)
+                env.hit("should-retry")
+                env.sim.yield_point("user-policy")
                 if p.get("raise_should") == attempt:
                     raise env.exc(("should_retry", i, attempt))
                 if attempt >= p.get("max", 3):
